@@ -53,6 +53,8 @@ struct Config {
     /// (hooked mnemonics, after-phase?, stop when the executed count seen equals this)
     stop: Option<(bool, u64)>,
     with_stack: bool,
+    /// the limit is set again (raised, lowered, set for the first time) after this many executed instructions: (j, new limit)
+    relimit: Option<(u64, u64)>,
 }
 
 impl C11 {
@@ -78,7 +80,7 @@ impl C11 {
         let opts = ProgOpts { fault_tail: true, unbalanced_ret: true, ..Default::default() };
         let prog = proggen::gen_prog(rng, &opts);
         // reference run without limit / hooks to learn the length
-        let base_cfg = Config { limit: None, stop: None, with_stack: rng.below(6) != 0 };
+        let base_cfg = Config { limit: None, stop: None, with_stack: rng.below(6) != 0, relimit: None };
         let Some(mut probe) = self.build(&prog, &base_cfg) else {
             col.count("build_failed", 1);
             return;
@@ -110,7 +112,24 @@ impl C11 {
             }
         }
         for _ in 0..4 {
-            cfgs.push(Config { limit: if rng.below(3) == 0 { Some(rng.below(lim_max)) } else { None }, stop: Some((rng.below(2) == 0, rng.below(len + 1))), with_stack: base_cfg.with_stack });
+            cfgs.push(Config { limit: if rng.below(3) == 0 { Some(rng.below(lim_max)) } else { None }, stop: Some((rng.below(2) == 0, rng.below(len + 1))), with_stack: base_cfg.with_stack, relimit: None });
+        }
+        // the limit set or changed in the middle of the run (resume with a larger budget, cut a run short, first limit late)
+        for _ in 0..4 {
+            let j = rng.below(len + 1);
+            let first = match rng.below(3) {
+                0 => None,
+                1 => Some(j + rng.below(3)),
+                _ => Some(rng.below(lim_max)),
+            };
+            let n2 = match rng.below(5) {
+                0 => j,
+                1 => j + 1,
+                2 => j + rng.below(len + 2),
+                3 => rng.below(j + 1),
+                _ => rng.below(lim_max + 2),
+            };
+            cfgs.push(Config { limit: first, stop: None, with_stack: base_cfg.with_stack, relimit: Some((j, n2)) });
         }
         for cfg in cfgs {
             if self.run_cfg(k, col, &prog, &cfg, len).is_some() {
@@ -131,7 +150,37 @@ impl C11 {
         STOP_AT.with(|c| c.set(stop_at));
         STOPPED.with(|c| c.set(false));
         col.publish("execute", &prog.shape);
-        let ra = call(|| block_on(a.execute()));
+        // twin A runs to completion with execute(); with a mid-run limit change it steps j times, sets the limit, then execute()
+        let mut limit_a = cfg.limit;
+        let mut a_early: Option<Call<()>> = None;
+        if let Some((j, n2)) = cfg.relimit {
+            let mut done = 0;
+            while done < j {
+                match call(|| block_on(a.step())) {
+                    Call::Ok(true) => done += 1,
+                    Call::Ok(false) => {
+                        a_early = Some(Call::Ok(()));
+                        break;
+                    }
+                    Call::Err { msg, rej } => {
+                        a_early = Some(Call::Err { msg, rej });
+                        break;
+                    }
+                    Call::Panic(p) => {
+                        a_early = Some(Call::Panic(p));
+                        break;
+                    }
+                }
+            }
+            if a_early.is_none() {
+                a.set_max_instructions(n2);
+                limit_a = Some(n2);
+            }
+        }
+        let ra = match a_early {
+            Some(r) => r,
+            None => call(|| block_on(a.execute())),
+        };
         if ra.is_panic() {
             return fail(col, &format!("execute-panic:{}", ra.panic_key()), ra.describe());
         }
@@ -146,9 +195,24 @@ impl C11 {
         let initial_rsp = snapshot(&b).gpr[4];
         let mut rb: Call<()> = Call::Ok(());
         let mut steps = 0u64;
+        let mut limit_b = cfg.limit;
+        let mut lowered_below_count = false;
+        let mut relimit_done = false;
         loop {
             if steps > 700 {
                 return fail(col, "no-termination", "stepping did not end within 700 steps".into());
+            }
+            if let Some((j, n2)) = cfg.relimit {
+                if steps == j && !relimit_done {
+                    relimit_done = true;
+                    let s0 = snapshot(&b);
+                    if s0.executed == j && !s0.finished {
+                        b.set_max_instructions(n2);
+                        limit_b = Some(n2);
+                        lowered_below_count = n2 < j;
+                        col.distinct_key(&format!("relimit|{}|{}", cfg.limit.is_some(), if n2 < j { "below" } else if n2 == j { "at" } else { "above" }));
+                    }
+                }
             }
             let before = snapshot(&b);
             let rip = before.rip;
@@ -162,14 +226,14 @@ impl C11 {
                 Call::Panic(_) => return fail(col, &format!("step-panic:{}", r.panic_key()), r.describe()),
                 Call::Err { msg, .. } => {
                     // a step that fails because the run is over or the limit is reached must change nothing
-                    let at_limit = cfg.limit.map(|n| before.executed >= n).unwrap_or(false);
+                    let at_limit = limit_b.map(|n| before.executed >= n).unwrap_or(false);
                     if before.finished || at_limit {
                         if let Some(d) = snapshot_diff(&before, &after) {
                             return fail(col, "refused-step-changed-state", format!("step after {} failed ({}) but changed state: {}", if before.finished { "finish" } else { "the limit" }, msg.chars().take(60).collect::<String>(), d));
                         }
                     }
-                    if at_limit && !before.finished && before.executed != cfg.limit.unwrap() {
-                        return fail(col, "limit-reached-at-wrong-count", format!("limit {} but {} instructions executed", cfg.limit.unwrap(), before.executed));
+                    if at_limit && !before.finished && before.executed != limit_b.unwrap() && !lowered_below_count {
+                        return fail(col, "limit-reached-at-wrong-count", format!("limit {} but {} instructions executed", limit_b.unwrap(), before.executed));
                     }
                     rb = Call::Err { msg: msg.clone(), rej: ax_x86::verif::Rejection::None };
                     break;
@@ -178,7 +242,7 @@ impl C11 {
                     if before.finished {
                         return fail(col, "step-after-finish-succeeded", format!("step() returned Ok after the run had finished (count {})", before.executed));
                     }
-                    if let Some(n) = cfg.limit {
+                    if let Some(n) = limit_b {
                         if before.executed >= n {
                             return fail(col, "step-beyond-limit-succeeded", format!("limit {}, {} executed, step() returned Ok", n, before.executed));
                         }
@@ -225,21 +289,21 @@ impl C11 {
             }
         }
         // execute() on a run that is over must behave like a further step: fail and change nothing
-        if snap_a.finished || cfg.limit.map(|n| snap_a.executed >= n).unwrap_or(false) {
+        if snap_a.finished || limit_a.map(|n| snap_a.executed >= n).unwrap_or(false) {
             let r = call(|| block_on(a.execute()));
             col.eval(1);
             if r.is_panic() {
                 return fail(col, &format!("execute-panic:{}", r.panic_key()), r.describe());
             }
             if r.is_ok() {
-                return fail(col, "execute-after-end-succeeded", format!("execute() on a run that is over returned Ok (finished={}, executed={}, limit={:?}); a further step fails", snap_a.finished, snap_a.executed, cfg.limit));
+                return fail(col, "execute-after-end-succeeded", format!("execute() on a run that is over returned Ok (finished={}, executed={}, limit={:?}); a further step fails", snap_a.finished, snap_a.executed, limit_a));
             }
             if let Some(d) = snapshot_diff(&snap_a, &snapshot(&a)) {
                 return fail(col, "execute-after-end-changed-state", d);
             }
         }
         // after the end: two further steps fail and change nothing
-        if snap_b.finished || cfg.limit.map(|n| snap_b.executed >= n).unwrap_or(false) {
+        if snap_b.finished || limit_b.map(|n| snap_b.executed >= n).unwrap_or(false) {
             for i in 0..2 {
                 let before = snapshot(&b);
                 let r = call(|| block_on(b.step()));
@@ -248,14 +312,14 @@ impl C11 {
                     return fail(col, &format!("step-panic:{}", r.panic_key()), r.describe());
                 }
                 if r.is_ok() {
-                    return fail(col, "step-after-end-succeeded", format!("further step #{} after the end returned Ok (finished={}, executed={}, limit={:?})", i + 1, before.finished, before.executed, cfg.limit));
+                    return fail(col, "step-after-end-succeeded", format!("further step #{} after the end returned Ok (finished={}, executed={}, limit={:?})", i + 1, before.finished, before.executed, limit_b));
                 }
                 if let Some(d) = snapshot_diff(&before, &snapshot(&b)) {
                     return fail(col, "step-after-end-changed-state", d);
                 }
             }
         }
-        let endk = if rb.is_ok() { "finished" } else if cfg.limit.map(|n| snap_b.executed >= n).unwrap_or(false) { "limit" } else { "error" };
+        let endk = if rb.is_ok() { "finished" } else if limit_b.map(|n| snap_b.executed >= n).unwrap_or(false) { "limit" } else { "error" };
         col.distinct_key(&format!("cfg|{}|{}|{}", cfg.limit.is_some(), cfg.stop.map(|s| s.0 as u8 + 1).unwrap_or(0), endk));
         col.count(&format!("configs_ending_{}", endk), 1);
         if col.want_sample() {
